@@ -29,7 +29,9 @@ ASSUMPTIONS = ["exact rational timeline is the specification", "float error of t
 MONITORS = ["time_at", "bpm_at", "monotone", "offset_shift", "redundant_bpm", "order_independence", "timing_data_reused"]
 REQUIRED = ["stop_on_delay", "nested_warps", "overlapping_warps", "touching_warps", "warp_at_beat_0",
             "stop_at_warp_start", "stop_inside_warp", "delay_inside_warp", "pause_at_warp_end",
-            "bpm_change_inside_warp", "pause_at_beat_0", "negative_beat_probe", "corpus", "three_warps_one_union"]
+            "bpm_change_inside_warp", "pause_at_beat_0", "negative_beat_probe", "corpus", "three_warps_one_union",
+            "different_kinds_on_adjacent_ticks", "warp_one_tick_after_a_stop", "pause_seconds_equal_a_bpm_value",
+            "pause_boundary_at_time_zero", "timing_read_from_sm_freezes"]
 TOL = Fraction(1, 10**9)
 
 
@@ -103,6 +105,8 @@ def check(ctx, case):
         ctx.feat(f)
     if case["kind"] == "corpus":
         ctx.feat("corpus")
+    if timing["stops"] and G.style_of(timing) == "sm-freezes":
+        ctx.feat("timing_read_from_sm_freezes")
     rng = random.Random(digest64(timing))
     tl = G.build_timeline(timing)
     eng = G.build_engine(timing)
